@@ -261,6 +261,7 @@ pub fn hostile_case(rng: &mut Rng, tier: crate::scn::Tier, idx: u64, prop: &str,
             for _ in 0..n {
                 let mut a = gen::gen_packet(rng, &sw);
                 maybe_retarget(rng, &sw, &mut a, 100);
+                gen::maybe_retarget_props(rng, sw.fam, &mut a, 40);
                 c.packets.push(a);
             }
             c.style = Style {
@@ -294,8 +295,13 @@ pub fn hostile_case(rng: &mut Rng, tier: crate::scn::Tier, idx: u64, prop: &str,
         }
         _ => {
             // maximal / huge declared lengths over short bodies
-            let t = *rng.pick(&all);
-            let flags = spec::fixed_flags(t, sw.fam.is_v5()).unwrap_or(0);
+            let (t, flags) = if rng.chance(1, 3) {
+                // any control byte at all, so that two header faults can coincide
+                (rng.below(16) as u8, rng.below(16) as u8)
+            } else {
+                let t = *rng.pick(&all);
+                (t, spec::fixed_flags(t, sw.fam.is_v5()).unwrap_or(0))
+            };
             let mut s = vec![(t << 4) | flags];
             let decl: &[u8] = match rng.below(5) {
                 0 => &[0xFF, 0xFF, 0xFF, 0x7F],
